@@ -30,6 +30,12 @@ def _fraction(obj):
     return '.{:06d}'.format(obj.microsecond) if obj.microsecond else ''
 
 
+def _offset_seconds(offset):
+    # whole seconds as an integer (as always), a sub-second offset with its fraction
+    seconds = offset.total_seconds()
+    return int(seconds) if seconds == int(seconds) else seconds
+
+
 def _with_fraction(fmt, value):
     return fmt + '.%f' if '.' in value else fmt
 
@@ -109,7 +115,7 @@ class CommonJSONEncoder(json.JSONEncoder):
         elif isinstance(obj, datetime.datetime):
             return {'type{datetime}':
                     (obj.strftime(DATETIME_F_FORMAT) + _fraction(obj),
-                     int(obj.utcoffset().total_seconds()) if obj.utcoffset() is not None else None,
+                     _offset_seconds(obj.utcoffset()) if obj.utcoffset() is not None else None,
                      obj.tzname())}
         elif isinstance(obj, datetime.date):
             return {'type{date}': obj.strftime(DATE_F_FORMAT)}
